@@ -44,11 +44,12 @@ StartProve(k) == /\ k \in DOMAIN buckets /\ Cardinality(inflight) < 2
                  /\ inflight' = inflight \cup {[key |-> k, ids |-> res'.ids]}
                  /\ UNCHANGED <<chain, landed>>
 \* the worker finishes; the chain takes the batch iff none of its nullifiers is settled yet
-FinishProve(j) == /\ j \in inflight /\ inflight' = inflight \ {j}
-                  /\ IF NullsOf(j.ids) \cap chain = {}
-                       THEN chain' = chain \cup NullsOf(j.ids) /\ landed' = landed \cup {j}
-                       ELSE UNCHANGED <<chain, landed>>
-                  /\ UNCHANGED vars /\ Silent
+FinishCore(j) == /\ j \in inflight /\ inflight' = inflight \ {j}
+                 /\ IF NullsOf(j.ids) \cap chain = {}
+                      THEN chain' = chain \cup NullsOf(j.ids) /\ landed' = landed \cup {j}
+                      ELSE UNCHANGED <<chain, landed>>
+                 /\ UNCHANGED vars
+FinishProve(j) == FinishCore(j) /\ Silent
 WorkerCrash(j) == j \in inflight /\ inflight' = inflight \ {j} /\ UNCHANGED <<vars, chain, landed>> /\ Silent
 \* the miner learns the settled set
 SyncSettled == /\ chain # {} /\ EvictSettled(chain) /\ Log([op |-> "evict_settled", set |-> SetToSeq(chain)])
